@@ -101,14 +101,28 @@ func (l dirItemList) size(joliet bool) sizeBytes {
 			entries = item.dirEntryJoliet
 		}
 
-		for _, entry := range entries {
-			ret += entry.size()
-		}
-
-		ret = ret.sectors().bytes() // directory entries of one directory aligned to sector
+		ret += dirEntriesSize(entries) // directory entries of one directory aligned to sector
 	}
 
 	return ret
+}
+
+// dirEntriesSize returns amount of bytes (aligned to sector) occupied by encoded entries of one directory.
+// Directory record must not cross sector boundary (ECMA-119 6.8.1.1),
+// so record that doesn't fit to the rest of current sector starts from the next one.
+func dirEntriesSize(entries []directoryEntry) sizeBytes {
+	var ret sizeBytes
+
+	for _, entry := range entries {
+		size := entry.size()
+		if ret%sectorSize+size > sectorSize {
+			ret = ret.sectors().bytes()
+		}
+
+		ret += size
+	}
+
+	return ret.sectors().bytes()
 }
 
 type fileItem struct {
